@@ -88,10 +88,10 @@ pub fn c41(args: &Args) -> ! {
         vec![
             (0, 1, 2, vec![0, 1, 2, 3], true, 1, 30),
             (0, 2, 1, vec![0, 1, 2, 3], false, 2, 30),
-            (0, 3, 3, vec![2, 3], false, 40, 30),
+            (0, 3, 3, vec![3], false, 40, 30),
             (1, 1, 2, vec![0, 1, 2, 3], true, 1, 30),
             (1, 2, 1, vec![0, 1, 2, 3], false, 2, 30),
-            (1, 3, 3, vec![2, 3], false, 40, 30),
+            (1, 3, 3, vec![3], false, 40, 30),
         ]
     } else {
         vec![
@@ -134,6 +134,54 @@ pub fn c41(args: &Args) -> ! {
     rep.assume("'starts after the removal has returned' is observed through a SeqCst flag written by the writer after the call returns and read by the reader immediately before its operation");
     rep.assume("the POSIX shm object is emulated in-process (one zero-initialised buffer aliased by all mappings; LOOMCHECK_REAL_SHM=1 runs on real objects with identical results, only slower); futex(2) model as for C43, keyed by the word's identity rather than its virtual address (shared futex)");
     rep.assume("one writer, at most two readers, two channels; removal predicates are deterministic");
+    rep.finish()
+}
+
+pub fn c42(args: &Args) -> ! {
+    let mut rep = Report::new(args, Level::ModelChecking);
+    let quick = args.tier == Tier::Quick;
+    let mut jobs = Vec::new();
+    // (family, capacity, max writer sequence length, bounds, unbounded, shards, cap)
+    let plan: Vec<(i64, i64, i64, Vec<usize>, bool, i64, u64)> = if quick {
+        vec![
+            (0, 2, 4, vec![], true, 1, 30),
+            (0, 3, 4, vec![], true, 1, 30),
+            (1, 3, 2, vec![0, 1, 2, 3], false, 1, 30),
+            (1, 2, 2, vec![0, 1, 2, 3], false, 1, 30),
+            (2, 3, 2, vec![0, 1, 2], false, 1, 30),
+            (2, 3, 2, vec![3], false, 4, 30),
+        ]
+    } else {
+        vec![
+            (0, 2, 6, vec![], true, 4, 700),
+            (0, 3, 6, vec![], true, 4, 700),
+            (1, 3, 3, vec![0, 1, 2, 3, 4], false, 4, 700),
+            (1, 2, 3, vec![0, 1, 2, 3, 4], false, 4, 700),
+            (2, 3, 2, vec![0, 1, 2, 3], false, 4, 700),
+            (2, 3, 2, vec![4], false, 12, 700),
+        ]
+    };
+    for (family, cap_chans, len, bs, unb, shards, cap) in plan {
+        for b in bounds(&bs, unb) {
+            for sh in 0..shards {
+                let shape = match family {
+                    0 => format!("shm table of capacity {cap_chans}, sequential: every writer sequence of length <= {len} over {{add seal, add open, remove oldest, remove newest, remove missing, remove_if(even id), remove_all}}, both copies compared after every operation; shard {sh}/{shards}"),
+                    1 => format!("shm table of capacity {cap_chans} holding 2 channels: every writer sequence of length <= {len} over {{add, remove oldest, remove_if(even id), remove_all}} against one reader (consult twice | exists+consult | consult+exists); shard {sh}/{shards}"),
+                    _ => format!("shm table of capacity {cap_chans} holding 2 channels: every writer sequence of length <= {len} over {{add, remove oldest, remove_if(even id), remove_all}} against two readers (consult | exists); shard {sh}/{shards}"),
+                };
+                jobs.push(Job::new("afc", "c42", &[family, cap_chans, len, sh, shards], b, cap, &shape));
+            }
+        }
+    }
+    let results = run_jobs(&args.prop, &jobs, PARALLEL);
+    fold(&mut rep, &args.prop, results);
+    guards(
+        &mut rep,
+        &["add_ok", "add_out_of_space", "remove_done", "remove_if_done", "remove_all_done", "quiescent_points_checked", "tables_consulted", "exists_calls", "futex_wait_blocked"],
+    );
+    rep.assume("a reader 'consults a table' by locking the list at read_off, exactly as seal/open/exists do; the harness reads the locked list through a child module of `shm`");
+    rep.assume("POSIX shm object emulated in-process; futex(2) model keyed by the word's identity (as for C41/C43)");
+    rep.assume("single writer; removal predicates are deterministic; channel-id counter overflow (2^64 adds) is outside the explored space");
     rep.finish()
 }
 
